@@ -498,6 +498,58 @@ def least_index_table(rep, F, rule="R5.7"):
     rep.ok(rule, "least-index[%d slices]" % n_w)
 
 
+def extreme_index_table(rep, F, rule="R8.11"):
+    """utils::least_and_greatest_index (quick hull's starting pair) on slices of 1..4 coordinates (exact unrolling): the pair returned names a
+    lexicographically least and a lexicographically greatest coordinate (numeric comparison, x then y), on every slice over a small grid -
+    including runs of coordinates with the same x at the start."""
+    import itertools
+    from ..evalterm import ArithEval, Enum, NoModel
+    rep.rule(rule, "least_and_greatest_index (slices of 1..4 coordinates, exact unrolling): the indices returned name a lexicographically least and a lexicographically greatest coordinate (x, then y) on every slice of a 3x3 grid")
+    try:
+        fn = F.one(r"^geo::utils::least_and_greatest_index$", crates=("geo",))
+    except KeyError as e:
+        rep.bad(rule, "extreme-index:anchor", str(e))
+        return
+
+    class Ev(ArithEval):
+        def call(self, t):
+            m = t[1].rsplit("::", 1)[-1]
+            if m in ("cmp", "total_cmp") and len(t[2]) == 2:
+                a, b = self.ev(t[2][0]), self.ev(t[2][1])
+                return Enum("core::cmp::Ordering", "Less" if a < b else "Greater" if a > b else "Equal")
+            return ArithEval.call(self, t)
+    vals = (0, 1, 2)
+    coords = [{"x": x, "y": y} for x in vals for y in vals]
+    n_w = 0
+    for n in (1, 2, 3, 4):
+        arr = ("&", ("array", tuple(("opaque", "c%d" % i) for i in range(n))))
+        try:
+            ex = Symex(F, concrete_iters=True, loop_bound=10, inline_crates=("geo", "geo_types"), max_paths=60000, budget_s=60)
+            paths = [p for p in ex.run(fn, args=[arr]) if p.kind != "cut"]
+        except Unanalysable as e:
+            rep.bad(rule, "extreme-index:unanalysable", "slice of %d coordinates: %s" % (n, e), where=fn.loc())
+            return
+        dom = coords if n <= 3 else coords[::2]
+        for cs in itertools.product(dom, repeat=n):
+            ev = Ev(F, {("opaque", "c%d" % i): cs[i] for i in range(n)})
+            try:
+                hit = ev.select_path(paths)
+                got = [tuple(ev.ev(h.ret)) if h.kind == "ret" else "panic" for h in hit]
+            except (NoModel, TypeError, KeyError) as e:
+                rep.bad(rule, "extreme-index:non-abstractable", "a decision of least_and_greatest_index cannot be evaluated on numbers (%s)" % e, where=fn.loc())
+                return
+            lo = min((c["x"], c["y"]) for c in cs)
+            hi = max((c["x"], c["y"]) for c in cs)
+            n_w += 1
+            ok = len(set(got)) == 1 and got[0] != "panic" and all(isinstance(i, int) and 0 <= i < n for i in got[0]) and \
+                (cs[got[0][0]]["x"], cs[got[0][0]]["y"]) == lo and (cs[got[0][1]]["x"], cs[got[0][1]]["y"]) == hi
+            if not ok:
+                rep.bad(rule, "extreme-index:table", "least_and_greatest_index(%s) = %s, but the least coordinate is %s and the greatest %s" %
+                        ([(c["x"], c["y"]) for c in cs], got, lo, hi), where=fn.loc())
+                return
+    rep.ok(rule, "extreme-index[%d slices]" % n_w)
+
+
 def fmt_ring(coords):
     return "[" + " ".join("(%d,%d)" % (c["x"], c["y"]) for c in coords) + "]"
 
